@@ -48,6 +48,7 @@ class Prover:
         self.it = it
         self.prop = prop
         self.jobs = []          # (name, smt2, strings)
+        self.guards = []        # (name, smt2, strings, 'guard'): vacuity guards, not obligations
         self.meta = {}          # name -> dict(contract, clause, hyps, goal, inputs, path)
         self.n_paths = 0
 
@@ -123,6 +124,14 @@ class Prover:
             for clause, goal, meta in goals:
                 self._add(f'{self.prop}/{label}/{clause}/path{k}', c, list(ctx.pc), goal, st, meta)
                 any_live = True
+        # vacuity guard: `False` must not follow from the hypotheses of (the longest) normally ending path of this contract
+        best = None
+        for idx, (ctx, out) in enumerate(paths):
+            if out[0] in ('return', 'cut') and (best is None or len(ctx.pc) > len(best[1].pc)):
+                best = (idx + 1, ctx)
+        if best is not None and any_live:
+            hyps = list(best[1].pc) + it.background() + list(c.background(it))
+            self.guards.append((f'{self.prop}/{label}/vacuity-guard/path{best[0]}', solve.to_smt2(hyps, z3.BoolVal(False)), c.strings, 'guard'))
         if fv is not None:
             self.report.functions[c.relpath + '::' + c.qualname]['obligations'] = \
                 self.report.functions[c.relpath + '::' + c.qualname].get('obligations', 0) + sum(1 for n in self.meta if f'/{label}/' in n)
@@ -173,7 +182,7 @@ class Prover:
                 sub.run_contract(make_contract())
                 trivial = [n for n, m in sub.meta.items() if m.get('trivial')]
                 metas = {n: {'function': m.get('function') or m['contract'].qualname, 'witness': (m.get('meta') or {}).get('witness', 'counter-model')} for n, m in sub.meta.items()}
-                conn.send({'jobs': sub.jobs, 'trivial': trivial, 'metas': metas, 'functions': rep.functions,
+                conn.send({'jobs': sub.jobs, 'guards': sub.guards, 'trivial': trivial, 'metas': metas, 'functions': rep.functions,
                            'obligations': rep.obligations, 'errors': rep.errors, 'paths': sub.n_paths})
             except Exception as e:      # noqa
                 import traceback
@@ -202,6 +211,7 @@ class Prover:
             for e in msg['errors']:
                 self.report.error(e)
             self.n_paths += msg['paths']
+            self.guards += msg.get('guards', [])
             for name in msg['trivial']:
                 self.meta[name] = {'contract': Contract(), 'hyps': [], 'goal': z3.BoolVal(True), 'st': None, 'meta': {'witness': msg['metas'][name]['witness']},
                                    'function': msg['metas'][name]['function'], 'trivial': True}
@@ -213,7 +223,18 @@ class Prover:
 
     def discharge(self, nproc=16):
         self.join_children()
-        res = solve.discharge_all(self.jobs, nproc=nproc)
+        res = solve.discharge_all(self.jobs + self.guards, nproc=nproc)
+        bad = []
+        for g in self.guards:
+            st = res.pop(g[0], None)
+            if st is not None and st[0] == 'proved':
+                bad.append(g[0])
+                self.report.error(f'{g[0]}: the hypotheses of this contract path are contradictory (every obligation on it holds vacuously)')
+        vg = self.report.extra.setdefault('vacuity_guards', {'checked': 0, 'contradictory': []})
+        vg['checked'] += len(self.guards)
+        vg['contradictory'] += bad
+        vg['rule'] = 'per contract: False must not be provable from the hypotheses of its longest normally ending path (short solver budget)'
+        self.guards = []
         refuted = []
         for name, m in self.meta.items():
             c = m['contract']
